@@ -551,8 +551,10 @@ class ChirpZTransformExecutor:
             self.components[key]
         except KeyError:
             m, n, M, N, K, L, alphay, alphax, shifty, shiftx, dtype, norm = key
-            Hrow, brow, arow = _prepare_czt_basis(m, M, K, shiftx, alphax, dtype, norm)
-            Hcol, bcol, acol = _prepare_czt_basis(n, N, L, shifty, alphay, dtype, norm)
+            # rows (axis 0) are the y axis: they take alphay = 1/(m*Qy) and the y shift (unpacked as shiftx above,
+            # since shift is given as (X, Y)); columns take alphax and the x shift
+            Hrow, brow, arow = _prepare_czt_basis(m, M, K, shiftx, alphay, dtype, norm)
+            Hcol, bcol, acol = _prepare_czt_basis(n, N, L, shifty, alphax, dtype, norm)
             # those are all vectors, now add singleton dimensions for numpy
             # to broadcast correctly in the following steps
             brow = brow[:, np.newaxis]
